@@ -175,7 +175,25 @@ def run(R):
             continue
         first = r.ast.value.elts[0]
         bad = False
+        # `<default> if <reason> is None else <reason>` (either orientation): the conditional expression is itself the not-None guard
+        guarded_alts = set()
+        if isinstance(first, ast.IfExp):
+            tl_ = None
+            for cand in (first.body, first.orelse):
+                l_ = truthy_label(first.test, ast.unparse(cand))
+                if l_ is not None and ((l_ is True and cand is first.body) or (l_ is False and cand is first.orelse)):
+                    tl_ = cand
+            if tl_ is not None:
+                guarded_alts.add(ast.unparse(tl_))
         for s_ in pl.sources(r, first):
+            if s_.kind == 'expr' and isinstance(first, ast.IfExp) and guarded_alts:
+                # the alternative that is the tested value itself is only taken when it is not None
+                names_ = {ast.unparse(x) for x in (first.body, first.orelse)}
+                src_txt = ast.unparse(s_.expr)
+                if any(g in names_ for g in guarded_alts) and (src_txt in guarded_alts or any(
+                        isinstance(x, ast.Name) and x.id in guarded_alts and any(ast.unparse(y.expr) == src_txt for y in pl.sources(r, x) if y.kind == 'expr')
+                        for x in (first.body, first.orelse))):
+                    continue
             e_ = s_.expr if s_.kind == 'expr' else None
             if isinstance(e_, ast.Constant) and e_.value is None:
                 bad = True
